@@ -610,6 +610,30 @@ example :
     (getShortestPath 2 2 (fun i j => i == j) { sourceCol := some [0] }).toOption = some (some (4, [(2, 0)])) ∧
     (getShortestPath 2 2 (fun i j => i != j) { source := some [0] }).toOption = some (some (2, [(0, 1)])) := by decide
 
+/-- **getDag_order_congr**. `get_dag` reads the order vector only through the test `0 ≤ order[i] < order[j]` on the
+stored entries: two order vectors (of any magnitudes — what an integer dtype can or cannot hold plays no role) that agree
+on this test for every stored entry give the same result, entry by entry and in the same storage order. -/
+theorem getDag_order_congr (es : List Entry) (o o' : List Int)
+    (h : ∀ e ∈ es, (0 ≤ o.getD e.row 0 ∧ o.getD e.row 0 < o.getD e.col 0) ↔
+                   (0 ≤ o'.getD e.row 0 ∧ o'.getD e.row 0 < o'.getD e.col 0)) :
+    getDagEntries es o = getDagEntries es o' := by
+  unfold getDagEntries
+  congr 1
+  apply List.map_congr_left
+  intro e he
+  have hiff := h e he
+  have hb : (decide (o.getD e.row 0 < 0) || decide (o.getD e.col 0 ≤ o.getD e.row 0)) =
+            (decide (o'.getD e.row 0 < 0) || decide (o'.getD e.col 0 ≤ o'.getD e.row 0)) := by
+    rw [Bool.eq_iff_iff]
+    simp only [Bool.or_eq_true, decide_eq_true_eq]
+    omega
+  unfold maskE
+  rw [hb]
+
+/-- an order and the same order shifted and scaled (positive values kept positive) are interchangeable -/
+example : getDagEntries (entriesOf 3 (fun i j => i != j)) [2, -1, 5] =
+          getDagEntries (entriesOf 3 (fun i j => i != j)) [200, -7, 4000000000000] := by decide
+
 /-- **get_dag with the default order** keeps exactly the edges `i → j` with `i < j`. -/
 theorem getDag_default_exact (n : Nat) (edge : Nat → Nat → Bool) :
     ∃ ps, getDag n edge none none = .ok (some ps) ∧
